@@ -77,12 +77,13 @@ def incarnation_scenarios(rng, ctx, per_config):
         for policy in (0, 1, 2):
             if kind == "bare" and policy == 1:
                 continue
-            for rmode in ("none", "same", "changed", "multi"):
+            for rmode in ("none", "same", "changed", "multi", "grow-front"):
                 for provider in (False, True):
+                    # grow-front: the new incarnation asks for one more range IN FRONT of the one its key may still own
                     ra = {"none": [], "same": [["10.100.0.3~10.100.0.4"]], "changed": [["10.100.0.3"]],
-                          "multi": [["10.100.0.3"], ["10.100.0.6~10.100.0.7"]]}[rmode]
+                          "multi": [["10.100.0.3"], ["10.100.0.6~10.100.0.7"]], "grow-front": [["10.100.0.6~10.100.0.7"]]}[rmode]
                     rb = {"none": [], "same": ra, "changed": [["10.100.0.5~10.100.0.6"]],
-                          "multi": [["10.100.0.3"], ["10.100.0.8"]]}[rmode]
+                          "multi": [["10.100.0.3"], ["10.100.0.8"]], "grow-front": [["10.100.0.3"], ["10.100.0.6~10.100.0.7"]]}[rmode]
                     name = "web-0" if kind == "sts" else "solo-1"
                     A = mkpod(name, "uA", kind, "web", policy, ra)
                     B = mkpod(name, "uB", kind, "web", policy, rb)
@@ -112,7 +113,7 @@ def incarnation_scenarios(rng, ctx, per_config):
                         for m in interleavings(rng, a_tail, b_ops, per_config):
                             # contenders: other pods ask for the very addresses the new incarnation holds
                             rc = {"none": [], "same": [["10.100.0.3~10.100.0.4"]], "changed": [["10.100.0.5~10.100.0.6"]],
-                                  "multi": [["10.100.0.3"]]}[rmode]
+                                  "multi": [["10.100.0.3"]], "grow-front": [["10.100.0.3"]]}[rmode]
                             cont = []
                             for ci in range(2):
                                 C = mkpod("other-%d" % ci, "uC%d" % ci, "bare", "", 0, rc)
@@ -445,7 +446,11 @@ def pool_scenarios(rng, ctx, n):
                 a = rng.choice(apps)
                 p = mkpod("%s-7f9c6d-z%d" % (a, uid), "v%d" % uid, "dp", a, 0, pool="p1")
                 pods.append(p)
-                ops += [put(p), inf(p), flt(p)]
+                ops += [put(p), inf(p)]
+                if rng.random() < 0.25:
+                    # a store call of the hand-over of a reserved IP (or of the allocation) fails once; the scheduler filters again
+                    ops.append(dict(flt(p), fstore=rng.choice([0, 1])))
+                ops.append(flt(p))
                 pending.append(p)
             elif r < 0.65 and pending:
                 p = pending.pop(0 if rng.random() < 0.6 else -1)
@@ -475,6 +480,15 @@ def pool_scenarios(rng, ctx, n):
             ops += [put(q), inf(q), {"op": "pool_race", "name": "p1", "size": size, "ns": "ns1", "pod": q["Name"], "nodes": ["node1", "node2", "node3"]},
                     bnd(q, "node1")]
             hs.append(("pool-request-races-filter:%d:%d" % (size, held), {"provider": False, "nodes": NODES, "conf": conf, "ops": ops}))
+    # a full, pre-allocated pool: the hand-over of a reserved IP fails once during Filter (every store call index), then retries
+    for size in (1, 2):
+        for k in (0, 1, 2):
+            f1 = mkpod("job-7f9c6d-full", "full%d%d" % (size, k), "dp", "job", 0, pool="p1")
+            f2 = mkpod("api-7f9c6d-full", "fullb%d%d" % (size, k), "dp", "api", 0, pool="p1")
+            hs.append(("full-pool-handover-fault:%d:%d" % (size, k), {"provider": False, "nodes": NODES, "conf": conf, "ops": [
+                {"op": "dp_set", "ns": "ns1", "name": "job", "replicas": 3}, {"op": "dp_set", "ns": "ns1", "name": "api", "replicas": 3},
+                {"op": "api_pool", "name": "p1", "size": size, "prealloc": True}, {"op": "pool_set", "name": "p1", "size": size},
+                put(f1), inf(f1), dict(flt(f1), fstore=k), flt(f1), put(f2), inf(f2), flt(f2), bnd(f1, "node1"), bnd(f2, "node1")]}))
     # K2, deterministic
     p1 = mkpod("job-7f9c6d-k1", "k1", "dp", "job", 0, pool="p1")
     p2 = mkpod("job-7f9c6d-k2", "k2", "dp", "job", 0, pool="p1")
@@ -563,13 +577,27 @@ def mon_c02(h, o, nwf, keys):
     specs = spec_index(h)
     steps = (o.get("steps") or [])[:nwf]
     prev = None
+    approved = {}             # (ns,name) -> nodes the last filter approved, valid while nothing but informer steps happen
     for si, (op, st) in enumerate(zip(h["ops"], steps)):
         d = st.get("dump")
         if d is None:
             break
         k = op["op"]
+        if k == "filter":
+            approved = {(op["ns"], op["name"]): (st.get("nodes") or [])} if st.get("res") == "ok" else {}
+        elif k not in ("informer", "bind"):
+            approved = {}
         if prev is not None and k == "bind" and st.get("res") == "ok":
             sp = lister_spec(prev, specs, op["ns"], op["name"])
+            if sp is not None and sp["Kind"] == "dp" and eff_policy(sp) != 0 and not sp.get("Ranges") and \
+                    st.get("node", op["node"]) in approved.get((op["ns"], op["name"]), []):
+                # bound on a node the filter approved a moment ago: a replacement pod of an immutable / never deployment (or
+                # named pool) was either handed the reserved IP by that filter, or there was none - it is never given a fresh IP
+                # while a reserved one of its app waits (then the filter would have made it wait)
+                key, pkk = pod_key(sp), prefix_key(sp)
+                if not any(e[1] == key for e in prev["alloc"]) and any(e[1] == pkk for e in prev["alloc"]):
+                    out.append(("false", si, "dp_bound_fresh_while_reserve_waits", []))
+            approved.pop((op["ns"], op["name"]), None)
             if sp is not None:
                 key = pod_key(sp)
                 mine = [e[0] for e in prev["alloc"] if e[1] == key]
@@ -651,11 +679,14 @@ def sticky_scenarios(rng, ctx, n):
                     ops.append({"op": "drop_event", "n": 0})
                     ops.append({"op": "resync", "ip": "@a%d" % rng.randrange(3)})
             p = newpod(j)
+            # the scheduler's candidate list: all nodes, or what its other predicates left (node loss, cordon) - possibly no node
+            # of the subnets the held / reserved IP is routable from
+            cand = ("node1", "node2", "node3") if rng.random() < 0.6 else tuple(rng.sample(["node1", "node2", "node3", "node4"], rng.choice([1, 2])))
             if rng.random() < 0.3:
                 # the scheduler filters the new pod before the plugin's informer has seen it; a resync pass runs in between
-                ops += [put(p), flt(p)] + [{"op": "resync", "ip": "@a%d" % a} for a in range(3)] + [inf(p), bnd(p, "@approved:%d" % rng.randrange(3))]
+                ops += [put(p), flt(p, cand)] + [{"op": "resync", "ip": "@a%d" % a} for a in range(3)] + [inf(p), bnd(p, "@approved:%d" % rng.randrange(3))]
             else:
-                ops += [put(p), inf(p), flt(p), bnd(p, "@approved:%d" % rng.randrange(3))]
+                ops += [put(p), inf(p), flt(p, cand), bnd(p, "@approved:%d" % rng.randrange(3))]
             if old is not None and not surge and late:
                 ops += [{"op": "event", "n": 0}, {"op": "event", "n": 0}, flt(p), bnd(p, "@approved:%d" % rng.randrange(3))]
             ops += [inf(p), phase(p, 1), inf(p)]
@@ -720,6 +751,9 @@ def policy_scenarios(rng, ctx, n):
                 ops += [inf(rng.choice(pods))]
             if rng.random() < 0.3:
                 ops.append({"op": rng.choice(["event", "event", "drop_event"]), "n": 0})
+            if rng.random() < 0.25:
+                q = rng.choice(pods)
+                ops.append({"op": "sync_pod", "ns": q["Ns"], "name": q["Name"]})
         if i % 10 == 0:
             # K1 shape: an immutable deployment pod is deleted, its event parks the IP under the app prefix, the deployment goes
             k1 = mkpod("api-7f9c6d-leak", "k1_%d" % i, "dp", "api", 1)
@@ -729,7 +763,10 @@ def policy_scenarios(rng, ctx, n):
             pods.append(k1)
         # sometimes a new process starts between the events and the pass: the tables are rebuilt from the store
         mid = [{"op": "restart"}] if rng.random() < 0.5 else []
-        quiesce = [inf(p) for p in pods] + [{"op": "event", "n": 0}] * (2 * len(pods)) + mid + [{"op": "resync", "ip": "@a%d" % j} for j in range(8)]
+        # (a Run cycle = the resync pass, then the pod-IP sync pass over the informer's pods, then - next cycle - resync again)
+        quiesce = [inf(p) for p in pods] + [{"op": "event", "n": 0}] * (2 * len(pods)) + mid + [{"op": "resync", "ip": "@a%d" % j} for j in range(8)] + \
+                  [{"op": "sync_pod", "ns": p["Ns"], "name": p["Name"]} for p in pods] + [{"op": "resync", "ip": "@a%d" % j} for j in range(8)] + \
+                  [{"op": "sync_pod", "ns": p["Ns"], "name": p["Name"]} for p in pods]
         hs.append(("policy:%d" % i, {"provider": rng.random() < 0.25, "nodes": NODES, "conf": conf, "ops": ops + quiesce, "_quiesce_from": len(ops)}))
         ctx.dist("scenario:policy")
     return hs
@@ -868,6 +905,18 @@ def routing_scenarios(rng, ctx, n):
                     if a not in used:
                         p2["Ranges"] = ranges[:1] + [[ipamgen.ip2s(a)]]
                 ops += [put(p2), inf(p2), flt(p2, nodes), bnd(p2, "@approved:%d" % rng.randrange(4))]
+        if rng.random() < 0.35:
+            # the node subnets are split by a reload after the plugin has looked up (and cached) the nodes' subnets: every pool
+            # keeps one half of each of its /24s; fresh pods are then filtered and bound, nothing else changes
+            pools2 = json.loads(json.dumps(pools))
+            for p_ in pools2:
+                p_["nodeSubnets"] = [sn.replace(".0.0/24", rng.choice([".0.0/25", ".0.128/25"])) for sn in p_["nodeSubnets"]]
+            ops.append({"op": "reload", "conf": conf_text(pools2)})
+            for j in range(rng.choice([1, 2, 3])):
+                p = mkpod("late-%d" % j, "l%d_%d" % (i, j), "bare", "", 0, [])
+                nodes = rng.sample(sorted(NODES), rng.choice([2, 3, 4]))
+                ops += [put(p), inf(p), flt(p, nodes), bnd(p, "@approved:%d" % rng.randrange(4))]
+            ctx.dist("scenario:routing-node-subnets-split-by-reload")
         hs.append(("routing:%d" % i, {"provider": False, "nodes": NODES, "conf": conf_text(pools), "ops": ops}))
         ctx.dist("scenario:routing")
     # K7, deterministic shape (the outcome depends on Go's map order): a key holding two IPs of different pools, pod without ranges
